@@ -65,6 +65,12 @@ CLAIMED = {
             "Friedel, F(000), out-parameter variants and the error contract are checked on all built-ins and on Hypothesis-generated valid cells.",
             "atomic factors come from the library's own Atomic_Factors (FF_Rayl/Fi/Fii decided by C02); built-in volumes compared at 1e-6 (%f literals)",
             "DESIGN.md 2/C13"),
+    "C14": ("Hypothesis stateful (rule-based state machine) testing against a model dictionary, run on a plain and on an ASan/UBSan build; built-in collection filled to capacity in a forked child",
+            "Generated histories of create/add/duplicate/NULL/get/list/copy-mutate-free/read-file (well-formed, 6 corruption kinds, duplicates, "
+            "missing) over arrays of initial capacity 0..12 are compared with a model after every step (names, order, cells, atoms, recomputed "
+            "volume, rejected operations leave no trace); failures shrink to a minimal history; sanitizer aborts keep the step log as replay.",
+            "file lines stay below the reader's 99-character line limit (numbers with 6 decimals); leak freedom of ArrayFree is C04's",
+            "DESIGN.md 2/C14"),
     "C15": ("exhaustive enumeration of all catalogue entries x addressing modes (differential: by-name vs by-index vs list vs header macros) + mutate-copy-refetch histories",
             "Every element, NIST compound, radionuclide and crystal is fetched in every documented way (incl. every index macro lexed from the headers "
             "and out-of-range indices), compared field by field, checked for well-formedness, and copies are scribbled over and freed in all orders.",
